@@ -186,8 +186,8 @@ def shipped(ctx, seeds, steps):
 def run(ctx):
     with reach(ctx, [observation_fs.from_visibility, grid_mod.Grid.subgrid, grid_mod.Grid.__mul__]):
         exhaustive(ctx)
-        random_cases(ctx, ctx.pick(500, 8000))
-        shipped(ctx, ctx.pick(1, 4), ctx.pick(60, 200))
+        random_cases(ctx, ctx.pick(500, 12000))
+        shipped(ctx, ctx.pick(1, 8), ctx.pick(60, 300))
         ctx.extra['exhaustive'] = True
 
 
